@@ -94,7 +94,8 @@ UNIT = {
      'rewrites': [{'rule': 'R5', 'regex': r'Some\(&(\w+)\)\s*=>\s*\{', 'replace': r'Some(\1_) => { let \1 = *\1_;', 'count': '*'},
                   {'rule': 'R5', 'regex': r'Some\(&(\w+)\)\s*=>\s*([^,{}]*),', 'replace': r'Some(\1_) => { let \1 = *\1_; \2 },', 'count': '*'}]},
   'XRefTable::set': {'kind': 'fn', 'file': XREF, 'container': XT, 'name': 'set', 'props': ['C09'],
-     # call sites: Storage::save only, with ids of pending changes / of a promise just made (< len by Storage::wf)
+     # call sites: Storage::save, with ids of pending changes / of a promise just made (< len by Storage::wf); the error path of
+     # Storage::create, with the id it has just pushed (< len: `to_primitive` only appends, env contract `extends`)
      'requires': ['id < old(self).entries@.len()'],
      'ensures': [('set_update', 'final(self).entries@ == old(self).entries@.update(id as int, r)')]},
   'XRefTable::len': {'kind': 'fn', 'file': XREF, 'container': XT, 'name': 'len', 'props': ['C09'],
@@ -112,14 +113,18 @@ UNIT = {
      'ensures': [
         ('create_wf', 'final(self).wf()'),
         ('create_id', 'r matches Ok(rc) ==> rc.inner.id == %s && rc.inner.gen == 0' % N0),
-        ('create_table', 'final(self).refs.entries@.len() > %s && final(self).refs.entries@[%s as int] is Promised' % (N0, N0)),
+        # the new number is reserved while the value is pending; a create that FAILS hands no id to the caller, so nobody could ever
+        # fulfil it: the number is then a free entry (ISO 32000-1 7.5.4), which save writes as such (fix failed_create_blocks_save)
+        ('create_table', 'final(self).refs.entries@.len() > %s && (r is Ok ==> final(self).refs.entries@[%s as int] is Promised)' % (N0, N0)),
+        ('create_err_entry_free', 'r is Err ==> final(self).refs.entries@[%s as int] == (XRef::Free { next_obj_nr: 0, gen_nr: 0 })' % N0),
         ('create_value', 'r matches Ok(rc) ==> final(self).changes@.dom().contains(rc.inner.id) && '
                          'final(self).changes@[rc.inner.id] == (obj.prim(ids_taken(%s, rc.inner.id)), 0u64)' % N0),
         ('create_frame', 'extends(*old(self), *final(self))'),
         ('create_err_no_value', 'r is Err ==> !final(self).changes@.dom().contains(%s as u64)' % N0),
      ],
-     'rewrites': [{'rule': 'R1', 'find': 'let primitive = obj.to_primitive(self)?;',
-                   'replace': 'proof { assert(extends(*old(self), *self)); } let primitive = obj.to_primitive(self)?;'}]},
+     # by shape: `let primitive = obj.to_primitive(self)?;` (before the fix) or `let primitive = match obj.to_primitive(self) { .. }`
+     'rewrites': [{'rule': 'R1', 'regex': r'let primitive = (match )?obj\.to_primitive\(self\)',
+                   'replace': r'proof { assert(extends(*old(self), *self)); } let primitive = \1obj.to_primitive(self)'}]},
   'Storage::update': {'kind': 'fn', 'file': FILE, 'container': UPD, 'name': 'update', 'props': ['C09'],
      'requires': UPD_REQ, 'ensures': lab('update', UPD_ENS),
      'rewrites': [
@@ -207,11 +212,11 @@ UNIT = {
  'native': {'tests': [
     {'name': 'write_save_reload_end_to_end', 'code': '../xrefchain/e2e_docs_bounded.rs', 'place': 'pdf/tests/verif_e2e_c09.rs', 'filter': 'c09_',
      'fn': 'Storage::save', 'props': ['C09'], 'tier': 'quick', 'timeout': 900,
-     'bound': 'sequences of 1..=3 operations over atoms {create(v), update(existing id k, v) for k in two in-use ids, update(id held by an object stream, v), promise then fulfill(v)} x v in {integer -77, string with CR / CR LF / "(", name "A#B c/d", dictionary with a "#" key holding [null 1 0 R], stream with /Filter /ASCIIHexDecode}: all single atoms, a fixed 1/5 (generated files) or all (corpus) of the ordered pairs, every 97th / 41st triple; one save or two saves in a row with a create in between; on generated files (hand-written bytes, no crate writer): base body of 6 objects (catalog, page tree, page, content stream, integer, string) + 0..=2 incremental updates of kind {Redef 3 4 5 6 | Free5 (free entry gen 1) + 6 | Reuse5 (gen 1, after Free5) | AddGap (new 9, 11; 7, 8, 10 undefined) | Pack (5, 6 inside a new object stream, xref-stream sections only)}: all 18 well-formed kind sequences; every section in one of 3 formats {classic | xref stream /W [1 2 1] one /Index run per entry | /W [1 3 2] maximal runs} (+ base variants objects 5, 6 in an object stream, /Index omitted) without the files that have undefined numbers (candidate finding units/updater/findings/save_fails_on_undefined_entries.md): 348 of the 654 files (74 of them with a compressed target), each with 1/16 of the sequences (all files together: every sequence many times), 3956 runs; on files/example.pdf (classic table) and files/xelatex.pdf (xref stream, compressed objects): 967 runs. Excluded as recorded: two dictionary-valued updates of ONE id in a sequence (known finding DEV_UPDATE_MERGES_DICT). Retry clause: on each of the 348 files and 25 value pairs on each corpus file (398 runs): update, promise left open, save (must fail), fulfill, save, reload. Not covered: encrypted files, updates that re-serialise an in-file stream; a create that FAILS (candidate finding units/updater/findings/failed_create_blocks_save.md).',
+     'bound': 'sequences of 1..=3 operations over atoms {create(v), update(existing id k, v) for k in two in-use ids, update(id held by an object stream, v), promise then fulfill(v)} x v in {integer -77, string with CR / CR LF / "(", name "A#B c/d", dictionary with a "#" key holding [null 1 0 R], stream with /Filter /ASCIIHexDecode}: all single atoms, a fixed 1/5 (generated files) or all (corpus) of the ordered pairs, every 97th / 41st triple; one save or two saves in a row with a create in between; on generated files (hand-written bytes, no crate writer): base body of 6 objects (catalog, page tree, page, content stream, integer, string) + 0..=2 incremental updates of kind {Redef 3 4 5 6 | Free5 (free entry gen 1) + 6 | Reuse5 (gen 1, after Free5) | AddGap (new 9, 11; 7, 8, 10 undefined) | Pack (5, 6 inside a new object stream, xref-stream sections only)}: all 18 well-formed kind sequences; every section in one of 3 formats {classic | xref stream /W [1 2 1] one /Index run per entry | /W [1 3 2] maximal runs} (+ base variants objects 5, 6 in an object stream, /Index omitted): 654 files (152 of them with a compressed target; 306 with undefined numbers below /Size), each with 1/16 of the sequences (all files together: every sequence many times), 8056 runs; on files/example.pdf (classic table) and files/xelatex.pdf (xref stream, compressed objects): 967 runs. Excluded as recorded: two dictionary-valued updates of ONE id in a sequence (known finding DEV_UPDATE_MERGES_DICT). Retry clause: on each of the 654 files and 25 value pairs on each corpus file (704 runs): update, promise left open, save (must fail), fulfill, save, reload. The two repaired defects pinned: update + create + save + reload of 3 files with undefined numbers 7, 8, 10 (save_fails_on_undefined_entries); a create that FAILS (stream whose info is an integer) followed by update + save + reload (failed_create_blocks_save). Not covered: encrypted files, updates that re-serialise an in-file stream.',
      'contract': 'every create / update / fulfill succeeds; update and fulfill hand back the very id given, create an id not in use; before any save and after each '
                  'save every written id reads, through the same open Storage, as the last value written; each save succeeds and its output starts with the previous '
                  'revision; reloading the bytes of every save (FileOptions::load): each written id resolves to the last value written (streams: /Filter, raw and decoded '
                  'data), every untouched object number 0 ..= /Size + 2 resolves as before (stream data included), same page count; a save that failed because of an open '
-                 'promise succeeds after the promise is fulfilled, with the same reload guarantees; nothing panics.'},
+                 'promise succeeds after the promise is fulfilled, with the same reload guarantees; a create that fails leaves the document savable; nothing panics.'},
  ]},
 }
